@@ -151,6 +151,9 @@ def run_property(pid, tier, repo, seed):
             functions += [f"{x} (kani:{h['unit']})" for x in h.get('functions', [])]
         for k, v in kr['trusted'].items():
             trusted[k] = v
+        dt = os.path.join(HERE, '.cache', 'difftest.txt')
+        if any('replace' in k for k in kspecs) and os.path.exists(dt):
+            notes.append('indexmap_model vs real indexmap (setup): ' + open(dt).read().strip())
         notes += kr['notes']
 
     # ---------------- verdict ----------------
